@@ -30,6 +30,9 @@ def conc_case(draw):
         'pre': draw(st.sampled_from(['none', 'file', 'file+1'])),
         'limited': draw(st.booleans()),
         'same_dir': draw(st.booleans()),
+        # the first attempt of download 0 breaks before its first byte (reset / EOF at 0); it is retried later
+        'first_fault': draw(st.sampled_from(['none', 'none', 'none', 'reset0', 'eof0'])),
+        'retry_ms': draw(st.sampled_from([50, 150, 300])),
     }
 
 
@@ -40,6 +43,14 @@ def enumerated():
                 for ed in (0.0, 0.002):
                     yield {'t': 'conc', 'name': name, 'n': n, 'download_at': [0] * n, 'start_at': [0, off, off][:n],
                            'sizes': [9000] * n, 'exec_delay': ed, 'pre': 'none', 'limited': False, 'same_dir': True}
+    # download 0 fails before its first byte, an equally named download from another user starts in between,
+    # download 0 is retried while that one is still active (bandwidth limit keeps it active)
+    for ff in ('reset0', 'eof0'):
+        for second_at in (40, 80, 100):
+            for retry in (150, 300):
+                yield {'t': 'conc', 'name': NAMES[0], 'n': 2, 'download_at': [0, second_at], 'start_at': [0, 0],
+                       'sizes': [5000, 20000], 'exec_delay': 0.0, 'pre': 'none', 'limited': True, 'same_dir': True,
+                       'first_fault': ff, 'retry_ms': retry}
     # three downloads, two starting together and the third arriving while the second is still starting up
     # (slow executor: every file-system step takes 2 / 20 ms)
     for ed in (0.002, 0.02):
@@ -65,6 +76,8 @@ def run_conc_case(case, res: CaseResult):
     pre = case.get('pre') if case.get('pre') in ('none', 'file', 'file+1') else 'none'
     limited = bool(case.get('limited'))
     same_dir = bool(case.get('same_dir', True))
+    first_fault = case.get('first_fault') if case.get('first_fault') in ('reset0', 'eof0') else 'none'
+    retry_s = _num(case.get('retry_ms', 150), 20, 1000, 150) / 1000.0
     tmp = tempfile.mkdtemp(prefix='vfw-c09-', dir='/dev/shm' if os.path.isdir('/dev/shm') else None)
     out = {}
     try:
@@ -96,6 +109,17 @@ def run_conc_case(case, res: CaseResult):
                 up.ticket_counter = 1000 * (i + 1)
                 up.path = path
                 ups.append(up)
+            if first_fault != 'none':
+                up0 = ups[0]
+
+                def plan0(att, up0=up0):
+                    if up0.attempts.index(att) != 0:
+                        return {}
+                    # like a real uploader: tell the downloader the upload broke, start again only after retry_s
+                    up0.start_delay = retry_s
+                    loop.call_later(0.02, up0.upload_failed, up0.path)
+                    return {'fault': 'reset' if first_fault == 'reset0' else 'eof', 'k': 0}
+                up0.plan = plan0
             client = await world.start_client(s)
             if limited:
                 client.network.set_download_speed_limit(64)
@@ -116,7 +140,16 @@ def run_conc_case(case, res: CaseResult):
                 paths = [t.local_path for t in active]
                 if len(set(paths)) < len(paths):
                     shared.append((round(loop.time(), 4), sorted(paths)))
-                if all(t.state.VALUE.name in ('COMPLETE', 'FAILED') for t in transfers):
+                t0_ = transfers[0]
+                if first_fault == 'eof0' and t0_.state.VALUE.name == 'FAILED' and t0_.fail_reason is not None \
+                        and not out.get('requeued'):
+                    out['requeued'] = True
+                    try:
+                        await client.transfers.queue(t0_)     # documented user action for FAILED with a reason
+                    except Exception:
+                        pass
+                if all(t.state.VALUE.name in ('COMPLETE', 'FAILED') for t in transfers) and \
+                        (first_fault == 'none' or len(ups[0].attempts) >= 2 or loop.time() > deadline - 50):
                     break
             out['shared'] = shared[:3]
             out['final'] = [(t.state.VALUE.name, t.local_path) for t in transfers]
@@ -156,7 +189,9 @@ def run_conc_case(case, res: CaseResult):
             break
         same_instant = len(set(round(a + b, 6) for a, b in zip(dl_at, st_at))) < n
         res.nontrivial = True
-        res.key = ['conc', name, n, dl_at, st_at, sizes, exec_delay, pre, limited, same_dir]
+        res.key = ['conc', name, n, dl_at, st_at, sizes, exec_delay, pre, limited, same_dir, first_fault, retry_s]
+        if first_fault != 'none':
+            res.label('conc:first-attempt-fails-before-first-byte')
         res.label('conc', 'conc:n=%d' % n, 'conc:pre=' + pre)
         if same_instant:
             res.label('conc:same-instant-start')
